@@ -1884,13 +1884,15 @@ class Plate:
             unit = config.volume_display_unit
         return self[:].dataframe(substance=substance, unit=unit, cmap=cmap, highlight=highlight)
 
-    def get_volume(self, unit: str = 'uL') -> float:
+    def get_volume(self, unit: str = None) -> float:
         """
         Arguments:
-            unit: unit to return volumes in.
+            unit: unit to return volumes in. (Defaults to the configured volume_display_unit, like get_volumes.)
 
-        Returns: total volume stored in slice in uL.
+        Returns: total volume stored in the plate.
         """
+        if unit is None:
+            unit = config.volume_display_unit
         # the total is rounded for display, not the sum of the wells' rounded volumes (96 x 2.5 uL is 240 uL, not 192)
         precision = config.precisions[unit] if unit in config.precisions else config.precisions['default']
         return round(float(sum(well.get_volume(unit) for well in self.wells.flatten())), precision)
